@@ -111,13 +111,19 @@ func fmtIssues(dir string) string {
 }
 
 // runGoagDir runs the generator on a spec into an explicit output directory (C19 histories).
-func runGoagDir(work, outDir, specName string, spec []byte, client, noAPI, doNotEdit bool) (res GenResult) {
+func runGoagDir(work, outDir, specName string, spec []byte, client, noAPI, doNotEdit bool, pkg string) (res GenResult) {
 	goagMu.Lock()
 	defer goagMu.Unlock()
 	specDir := filepath.Join(work, "specs", specName)
 	os.MkdirAll(specDir, 0o755)
 	res.SpecPath = filepath.Join(specDir, "openapi.json")
-	os.WriteFile(res.SpecPath, spec, 0o644)
+	// the spec file is written once and looks old (as a spec that has not been edited for an hour
+	// does): whether a run regenerates must not depend on file times
+	if old, err := os.ReadFile(res.SpecPath); err != nil || !bytes.Equal(old, spec) {
+		os.WriteFile(res.SpecPath, spec, 0o644)
+	}
+	past := time.Now().Add(-time.Hour)
+	os.Chtimes(res.SpecPath, past, past)
 	res.Dir = outDir
 	defer func() {
 		if r := recover(); r != nil {
@@ -126,7 +132,7 @@ func runGoagDir(work, outDir, specName string, spec []byte, client, noAPI, doNot
 		}
 	}()
 	g := goag.Generator{GenClient: client, GenAPIHandler: !noAPI, DoNotEdit: doNotEdit}
-	err := g.GenerateFile(outDir, "p", res.SpecPath, "", filepath.Join(specDir, ".goag.yaml"), "")
+	err := g.GenerateFile(outDir, pkg, res.SpecPath, "", filepath.Join(specDir, ".goag.yaml"), "")
 	if err != nil {
 		res.Outcome = "error"
 		res.Detail = err.Error()
